@@ -55,7 +55,8 @@ def split_rows(sysd, gro):
     for mi, mt in enumerate(T.expand(sysd)):
         for ri, rn in enumerate(mt["res"]):
             na = len(sysd["residues"][rn]["atoms"])
-            groups.append({"mol": mi, "molname": mt["name"], "res": ri, "resname": rn, "rows": gro["rows"][k:k + na],
+            groups.append({"mol": mi, "molname": mt["name"], "res": ri, "resname": T.shown(sysd, rn), "reskey": rn,
+                           "rows": gro["rows"][k:k + na],
                            "resid": mt.get("resids", range(1, 10 ** 6))[ri]})
             k += na
     return groups
@@ -168,10 +169,11 @@ def make_options(rng, sysd, workdir, res, allow=("plain", "c_full", "c_prefix", 
         mi = rng.randrange(len(mols))
         mt = mols[mi]
         ri = rng.randrange(len(mt["res"]))
-        kw["start"] = ["%s#%d-%s#%d" % (mt["name"], mi, mt["res"][ri], mt.get("resids", range(1, 10 ** 6))[ri])]
+        kw["start"] = ["%s#%d-%s#%d" % (mt["name"], mi, T.shown(sysd, mt["res"][ri]), mt.get("resids", range(1, 10 ** 6))[ri])]
         info["start"] = kw["start"]
     if mode == "bvol":
-        rn = rng.choice(sorted(sysd["residues"]))
+        al = sysd.get("alias", {})
+        rn = rng.choice(sorted(k_ for k_ in sysd["residues"] if k_ not in al and k_ not in al.values()) or sorted(sysd["residues"]))
         with open(os.path.join(workdir, "v.bld"), "w") as fh:
             fh.write("[ volumes ]\n%s %.3f\n" % (rn, rng.uniform(0.4, 0.7)))
         kw["build"] = [Path(workdir) / "v.bld"]
@@ -222,6 +224,8 @@ def run_case(cid, rng, workdir):
     sysd = T.gen_system(rng, min_res=4 if cid[0] == "faults" else 1)
     if rng.random() < 0.3 and T.add_mass_overrides(rng, sysd):
         bump(res, "systems_with_per_atom_masses")
+    if rng.random() < 0.2 and T.alias_residues(rng, sysd):
+        bump(res, "systems_with_two_residues_under_one_name")
     text = T.render_top(sysd)
     with open(os.path.join(workdir, "s.top"), "w") as fh:
         fh.write(text)
